@@ -1,6 +1,6 @@
 //! Rich solution type for solve_ivp: sampled data, stats, and dense evaluation helpers.
 
-use crate::{Float, error::{Error, InterpolationError}, solve::cont::ContinuousOutput, status::Status};
+use crate::{Float, error::{Error, InterpolationError}, solve::cont::{time_tol, ContinuousOutput}, status::Status};
 
 /// Rich solution of solve_ivp: sampled data plus basic stats
 #[derive(Debug, Clone)]
@@ -29,7 +29,8 @@ impl Solution {
             .ok_or(Error::Interpolation(InterpolationError::NotEnabled))?;
         let (start, end) = dense.t_span().ok_or(Error::Interpolation(InterpolationError::NotEnabled))?;
         let (lo, hi) = (start.min(end), start.max(end));
-        if t < lo || t > hi {
+        // the same slack as the segment lookup: the last sample may sit a rounding error beyond `xold + h` of its segment
+        if t < lo - time_tol(lo) || t > hi + time_tol(hi) {
             return Err(Error::Interpolation(InterpolationError::OutOfRange {
                 t,
                 t_start: start,
@@ -53,7 +54,7 @@ impl Solution {
         let (start, end) = dense.t_span().ok_or(Error::Interpolation(InterpolationError::NotEnabled))?;
         let (lo, hi) = (start.min(end), start.max(end));
         for &t in ts {
-            if t < lo || t > hi {
+            if t < lo - time_tol(lo) || t > hi + time_tol(hi) {
                 return Err(Error::Interpolation(InterpolationError::OutOfRange {
                     t,
                     t_start: start,
